@@ -236,6 +236,8 @@ func sanitize(s string) string {
 			sb.WriteString("L")
 		case c == ']':
 			sb.WriteString("R")
+		case c == '@':
+			sb.WriteString("_occ") // obligation name suffix of a repeated occurrence: must not look like a ".N" part
 		default:
 			sb.WriteString("_")
 		}
